@@ -517,7 +517,7 @@ def rand_policy(rng):
 
 
 def gen(rng, tier):
-    n = 1500 if tier == "quick" else 30000
+    n = 1500 if tier == "quick" else 25000
     out = []
     for i in range(n):
         k = rng.random()
